@@ -42,6 +42,9 @@ def gen_requests(rng, tier):
         rs += [['RRecombinationKeyword', v, how] for how in ('reused_keyword', 'reused_attribute') for v in (neg(), pos())]
         rs += [['RSfsTwoLoci', l] for l in (1, 2)]
         rs += [['RMultipleMergerLoci', mm, l] for mm in (True, False) for l in (1, 2)]
+        # every multiple-merger model class and both statistics (the model only distinguishes multiple merger / Kingman)
+        rs += [['RMultipleMergerLoci', True, l, kind, stat] for l in (1, 2) for kind in ('dirac', 'beta', 'dirac_unscaled')
+               for stat in ('tree_height', 'total_branch_length')]
         rs += [['RConstructTimes', a, b] for a, b in [(neg(), None), (0.0, neg()), (2.0, 1.0), (1.0, 1.0), (0.0, None), (0.5, 2.0), (1.0, 0.5)]]
         for t in ('RCdfTime', 'RAccumulateTime', 'RMomentEndTime'):
             rs += [[t, v] for v in (neg(), 0.0, pos())]
